@@ -43,8 +43,12 @@ def program(rng, tier):
             f"net loss {rng.choice([0, 0, 20])} 2"]
     if use_turn:
         ops.append(f"server 127.0.0.60:3478 turn {rng.choice(['a', 'a', 'a', 'ua', 'd', 'ue', 'n', 'aad', 'aad', 'uaad', 'aae', 'aaad'])} user pass")   # ..d: the server goes silent after allocating
-    ops.append(f"new A ctrl={rng.randint(0, 1)} compat=0 opts={opts} addrs=127.0.0.1" + (",127.0.0.2" if rng.random() < 0.3 else ""))
-    ops.append(f"new B ctrl={rng.randint(0, 1)} compat=0 opts={opts} addrs=127.0.1.1")
+    # a sixth of the programs: ICE-TCP candidates as well, and a foreign party that opens raw TCP connections to an agent's
+    # tcp-passive candidate, writes whole / partial RFC 4571 frames and goes away
+    use_tcp = rng.random() < 0.17
+    tcpx = " icetcp=1" if use_tcp else ""
+    ops.append(f"new A ctrl={rng.randint(0, 1)} compat=0 opts={opts}{tcpx} addrs=127.0.0.1" + (",127.0.0.2" if rng.random() < 0.3 else ""))
+    ops.append(f"new B ctrl={rng.randint(0, 1)} compat=0 opts={opts}{tcpx} addrs=127.0.1.1")
     ops.append("fds")
     if rng.random() < 0.75:
         # usual prologue so that the fuzzed calls hit a session with checks / refreshes / transfers in flight
@@ -72,7 +76,24 @@ def program(rng, tier):
         cid = rng.choice([1, 1, 2, 9])
         kind = rng.choice(["stream", "stream", "gather", "creds", "cands", "run", "run", "send", "restart", "restartstream",
                            "rmstream", "consentlost", "relay", "sdp", "attach", "detach", "setrole", "selpair", "getsel",
-                           "forgetrelays", "q", "localcands", "remotecands", "res", "closeasync", "unref"])
+                           "forgetrelays", "q", "localcands", "remotecands", "res", "closeasync", "unref"] +
+                          (["rawtcp"] * 5 if use_tcp else []))
+        if kind == "rawtcp":
+            name = rng.choice(["x", "y"])
+            what = rng.choice(["conn", "conn", "frame", "partial", "partial", "close", "close"])
+            if what == "conn":
+                ops.append(f"tcpconn {name} @{ag}")
+            elif what == "frame":
+                pl = bytes(rng.randrange(256) for _ in range(rng.choice([1, 20, 300])))
+                ops.append(f"tcpsend {name} {(len(pl).to_bytes(2, 'big') + pl).hex()}")
+            elif what == "partial":
+                ln = rng.choice([100, 1000, 65535])
+                ops.append(f"tcpsend {name} {rng.choice([ln.to_bytes(2, 'big')[:1], ln.to_bytes(2, 'big'), ln.to_bytes(2, 'big') + bytes(10)]).hex()}")
+            else:
+                ops.append(f"tcpclose {name}")
+            ops.append("settle 60")
+            ops.append(f"run {rng.choice([0, 20, 300])}")
+            continue
         if kind == "stream":
             k = rng.randint(1, 2)
             ops.append(f"stream {ag} {k}")
@@ -136,6 +157,8 @@ def program(rng, tier):
     for ag in "AB":
         if alive[ag]:
             ops.append(f"unref {ag}")
+    if use_tcp:
+        ops += ["tcpclose x", "tcpclose y", "settle 100"]      # the foreign party's own descriptors are not the library's
     ops += ["drain", "run 4000", "drain", "fds"]       # > the 2 s a deallocation nobody answers takes to time out (rc=3, rto=500)
     return [o for o in ops if o]
 
